@@ -20,22 +20,23 @@ F_PER_RESIDUE = "C18-F1"
 
 def scenarios(tier: str) -> List[Dict[str, Any]]:
     import itertools
-    seqs = ["P", "PE", "CKC"] if tier == "quick" else ["P", "PE", "CKC", "MCKM", "SEQKS"]
+    # since session 5 the quick tier runs what used to be the thorough scope (it takes seconds); thorough goes deeper
+    deep = tier == "thorough"
+    seqs = ["P", "PE", "CKC", "MCKM", "SEQKS"] + (["ACDEFGHIK", "LMNPQRSTVWYUO"] if deep else [])
     out = []
     k = 0
     for seq in seqs:
         out.append({"seq": seq, "feat": [], "kind": 0, "plus": False, "prec": 6})
         subsets = [(f,) for f in FEATURES] + list(itertools.combinations(FEATURES, 2))
-        if tier == "thorough":
-            subsets += [tuple(FEATURES[:5]), tuple(FEATURES)]
+        subsets += [tuple(FEATURES[:5]), tuple(FEATURES)]
+        if deep and len(seq) <= 5:
+            subsets += list(itertools.combinations(FEATURES, 3))
         for sub in subsets:
             if "adducts" in sub and "charge" not in sub:
                 sub = sub + ("charge",)
             if len(seq) < 2 and "interval" in sub:
                 continue
             k += 1
-            if tier == "quick" and len(sub) == 2 and (k % 3):
-                continue
             out.append({"seq": seq, "feat": list(sub), "kind": k % len(KINDS), "plus": bool((k // 4) % 2), "prec": 3 + (k // 8) % 6})   # mixed radix
     return out
 
@@ -328,7 +329,8 @@ def run(tier: str, seed: int, only=None) -> Report:
                     "#shifts, while the structural clauses (same residues, numeric modifications only, shifts only where the original is "
                     "modified, unmodified unchanged) are checked on every path.",
         functions=FUNCS,
-        bounds="sequences P, PE, CKC (quick) + MCKM, SEQKS (thorough); each of 13 features alone and in pairs (residue, terminal, labile, "
+        bounds="sequences P, PE, CKC, MCKM, SEQKS (quick) + ACDEFGHIK, LMNPQRSTVWYUO (thorough); each of 13 features alone, in pairs, the "
+               "first five together and all 13 together, in triples for the sequences up to 5 residues (thorough) (residue, terminal, labile, "
                "static residue/N-Term/C-Term, isotope label, unknown, interval, charge, adducts); numeric/Formula/Unimod/Glycan values; "
                "include_plus both; precision 3..8",
         outside="longer peptides; several modifications per slot; IEEE rounding (S5, S6)",
